@@ -115,6 +115,35 @@ NoAllocFigures(st) ==
   /\ \A k \in 1..4 : st.max_alloc_count[k] = 0 /\ st.max_alloc_size[k] = 0
   /\ \A o \in 1..4 : \A k \in 1..4 : st.tally_count[o][k] = 0 /\ st.tally_size[o][k] = 0
 
+(* Allocation data: after the throughput rows, one block for the peak ("max  *)
+(* alloc:") and one per kind of operation in the order alloc, dealloc, grow, *)
+(* shrink - each a label row, a row of counts and a row of byte sizes -       *)
+(* exactly for the blocks that have a non-zero figure.  `txt` is the          *)
+(* documented rendering (C18) of every figure, indexed [max, grow, shrink,    *)
+(* alloc, dealloc]; a cell must read the figure of its block, row and column. *)
+LabelCp(b) ==
+  CASE b = 1 -> <<109, 97, 120, 32, 97, 108, 108, 111, 99, 58>>        \* "max alloc:"
+    [] b = 4 -> <<97, 108, 108, 111, 99, 58>>                          \* "alloc:"
+    [] b = 5 -> <<100, 101, 97, 108, 108, 111, 99, 58>>                \* "dealloc:"
+    [] b = 2 -> <<103, 114, 111, 119, 58>>                             \* "grow:"
+    [] b = 3 -> <<115, 104, 114, 105, 110, 107, 58>>                   \* "shrink:"
+BlockNonZero(st, b) ==
+  IF b = 1 THEN \E k \in 1..4 : st.max_alloc_count[k] # 0 \/ st.max_alloc_size[k] # 0
+  ELSE \E k \in 1..4 : st.tally_count[b - 1][k] # 0 \/ st.tally_size[b - 1][k] # 0
+AllocBlocks(st) == SelectSeq(<<1, 4, 5, 2, 3>>, LAMBDA b : BlockNonZero(st, b))
+AllocRowsExact(rows, st, txt) ==
+  LET blocks == AllocBlocks(st) IN
+  /\ Len(rows) = 3 * Len(blocks)
+  /\ \A j \in 1..Len(blocks) :
+        LET b == blocks[j]
+            lab == rows[3 * j - 2]
+            cnt == rows[3 * j - 1]
+            siz == rows[3 * j]
+        IN /\ Len(lab.cells_cp) = 6 /\ Len(cnt.cells_cp) = 6 /\ Len(siz.cells_cp) = 6
+           /\ lab.cells_cp[1] = LabelCp(b) /\ \A k \in 2..6 : lab.cells_cp[k] = <<>>
+           /\ \A k \in 1..4 : cnt.cells_cp[k] = txt[b].count[k] /\ siz.cells_cp[k] = txt[b].size[k]
+           /\ \A k \in 5..6 : cnt.cells_cp[k] = <<>> /\ siz.cells_cp[k] = <<>>
+
 (* One throughput row per counter kind in force, in the order bytes, chars, *)
 (* cycles, items; each cell is the count of its column over the time of its *)
 (* column.                                                                  *)
@@ -367,9 +396,14 @@ CheckRun(r) ==
                                 ln.cells_cp[c] # F!FormatDur(F!FromInt(inv.stats.time[c])),
                              "C20:time_cell_is_not_the_statistic_of_its_column")
                    \* throughput rows: one per counter kind, computed column by column
-                   \cup Flag(NoAllocFigures(inv.stats) /\
-                             ~CounterRowsExact(ContRowsFrom(r, runRows[k] + 1), inv.stats),
-                             "C20:throughput_rows_are_not_those_of_the_benchmark_above")
+                   \cup (LET conts == ContRowsFrom(r, runRows[k] + 1)
+                              nk == Cardinality({q \in 1..4 : inv.stats.counts[q] # <<>>})
+                          IN Flag(~CounterRowsExact(SubSeq(conts, 1, IF nk <= Len(conts) THEN nk ELSE Len(conts)), inv.stats)
+                                  \/ nk > Len(conts),
+                                  "C20:throughput_rows_are_not_those_of_the_benchmark_above")
+                             \cup Flag(nk <= Len(conts) /\
+                                       ~AllocRowsExact(SubSeq(conts, nk + 1, Len(conts)), inv.stats, inv.alloc_text),
+                                       "C20:allocation_rows_are_not_those_of_the_benchmark_above"))
                    \cup Flag(Len(ln.cells_cp) = 6 /\ (~IsNumberCp(ln.cells_cp[5]) \/ ~IsNumberCp(ln.cells_cp[6])),
                              "C20:samples_or_iters_cell_not_a_number")
                    \cup Flag(Len(ln.cells_cp) = 6 /\ IsNumberCp(ln.cells_cp[5]) /\ IsNumberCp(ln.cells_cp[6]) /\
